@@ -88,6 +88,9 @@ def tasks(tier):
         if ".lagrange" in jm:
             ts.append(("sibling %s" % nm, "run_included", dict(modname="c12", fname="run_pair", kwargs=dict(jmod=jm, tmod=tm, name=nm), oid="C11.O9", select_oid="C12.O1",
                                                              why="a Lagrange model whose two backend implementations differ deviates, in at least one of them, from the model whose Kirchhoff stress is symmetric")))
+    # the public micro-sphere building blocks (affine / non-affine stretch and tube parts): user-defined models are assembled from them
+    for backend in ("tensortrax", "jax"):
+        ts.append(("micro-sphere framework %s" % backend, "run_framework", dict(backend=backend)))
     ts.append(("canary", "run_canary", {}))
     return ts
 
@@ -523,6 +526,83 @@ def run_canary(col):
     col.info["canaries_expected"] = 1
     col.info["canaries_fired"] = 1 if fired else 0
     col.add("canary", "fixtures/canary_models.py mixed_invariants", "the reference-state rule flags an energy mixing isochoric and full invariants", fired, nontrivial=False)
+
+
+def run_framework(col, backend):
+    """the micro-sphere framework functions with an arbitrary chain law f (a polynomial with symbolic coefficients, non-zero slope at unit
+    stretch) on a rule with exact second moments: distortional micro-stretches make the part isochoric and stress free at C = 1; the
+    *_statevars sibling of a function denotes the same energy and hands out the state the chain law returned"""
+    it = admodels.new_model_interp()
+    exact_sphere_rule(it)
+    base = "felupe.constitution.%s.models.hyperelastic.microsphere" % backend
+    found = {}
+    for mn in list_modules(base):
+        if not mn.split(".")[-1].startswith("_framework"):
+            continue
+        m = it.module(mn)
+        for n in m.tree.body:
+            if isinstance(n, ast.FunctionDef) and not n.name.startswith("_") and n.args.args and n.args.args[0].arg == "C":
+                found[n.name] = (mn, n)
+    col.add("C11.O10", "%s micro-sphere framework functions" % backend, "the framework modules define the documented building blocks", len(found) >= 6, sorted(found))
+    a1, a2, a3 = sym("chain_a1"), sym("chain_a2"), sym("chain_a3")
+
+    def chain(lam, **kw):
+        return a1 * lam + a2 * lam * lam + a3 * lam * lam * lam
+
+    def chain_sv(lam, sv, **kw):
+        return chain(lam), "NEW-STATE"
+
+    def W_of(name, C):
+        mn, node = found[name]
+        fo = it.get(mn + ":" + name)
+        args = [C]
+        for a in node.args.args[1:]:
+            if a.arg == "statevars":
+                args.append("OLD-STATE")
+            elif a.arg in ("p", "q"):
+                args.append(sym("par_" + a.arg, True))
+            elif a.arg == "f":
+                args.append(chain_sv if "statevars" in [b.arg for b in node.args.args] else chain)
+            elif a.arg == "kwargs":
+                args.append({})
+        r = it.call(fo, args, {})
+        if isinstance(r, tuple):
+            return P(r[0]), r[1]
+        return P(r), None
+
+    for name in sorted(found):
+        mn, node = found[name]
+        where = "%s:%d" % (mn.replace("felupe.", ""), node.lineno)
+        label = "%s.%s" % (backend, name)
+
+        def ref_state(name=name, where=where):
+            C = admodels.world_C("full")
+            W, _ = W_of(name, C)
+            at1 = {C[i, j]: (ONE if i == j else ZERO) for i in range(3) for j in range(i, 3)}
+            bad = []
+            for i in range(3):
+                for j in range(i, 3):
+                    d = subs(diff(W, C[i, j]), at1)
+                    if not is_zero(d):
+                        bad.append("dW/dC%d%d = %s" % (i, j, ring.fmt(d, 5)))
+            return not bad and bool(W.t), "%s: %s" % (where, "; ".join(bad[:3]))
+        col.check("C11.O10", "%s reference state" % label, "for any chain law, the part is stress free at C = 1 (distortional micro-stretch, rule with isotropic second moments)", ref_state)
+
+        def iso(name=name, where=where):
+            k = sym("kscale", True)
+            W1, _ = W_of(name, admodels.world_C("full"))
+            W2, _ = W_of(name, admodels.world_C("full", scale=k))
+            return is_zero(W1 - W2), "%s: W(kC) - W(C) = %s" % (where, ring.fmt(W2 - W1, 5))
+        col.check("C11.O10", "%s distortional" % label, "the micro-stretch is taken from the distortional part of C: W(k C) == W(C) for every k > 0", iso)
+
+        if name.endswith("_statevars") and name[:-len("_statevars")] in found:
+            def sib(name=name, where=where):
+                C = admodels.world_C("full")
+                Ws, st = W_of(name, C)
+                W0, _ = W_of(name[:-len("_statevars")], C)
+                return is_zero(Ws - W0) and st == "NEW-STATE", "%s: differs from %s by %s, state handed out %r" % (where, name[:-len("_statevars")], ring.fmt(Ws - W0, 5), st)
+            col.check("C11.O10", "%s vs %s" % (label, name[:-len("_statevars")]), "the state-variable version denotes the same energy as its state-less sibling and hands out the state the chain law returned", sib)
+    finish_info(col, it)
 
 
 def run_included(col, modname, fname, kwargs, oid, why, select_oid=None):
